@@ -401,6 +401,7 @@ func checkC09(c *Ctx) {
 	} else {
 		r.Unk("C09.restore", "(*history.Sources).Walk", "-", "anchor not found")
 	}
+	checkC09Round2(c)
 }
 
 func isLenCall(v ssa.Value) bool {
